@@ -213,13 +213,15 @@ class Explorer:
         self.inputs[name] = value
         return value
 
-    def region(self, fid, cond):
-        """Declare a known-finding region (predicate over the inputs)."""
-        self.regions.append((fid, cond))
+    def region(self, fid, cond, labels=None):
+        """Declare a known-finding region (predicate over the inputs); with ``labels`` the region only
+        covers failures of those obligations, so that any other violation inside it is still reported."""
+        self.regions.append((fid, cond, tuple(labels) if labels else None))
 
     def _record_failure(self, negated, label, detail, exc=None):
         """negated: z3 Bool / python bool that characterises the failing inputs on this path."""
-        regs = [(fid, c) for fid, c in self.regions]
+        regs = [(r[0], r[1]) for r in self.regions
+                if len(r) < 3 or r[2] is None or any(str(label).startswith(p) for p in r[2])]
         outside = [z3.Not(c) if not isinstance(c, bool) else z3.BoolVal(not c) for _, c in regs]
         extra = [] if isinstance(negated, bool) else [negated]
         found = False
